@@ -87,19 +87,33 @@ impl Ty {
     ) -> Result<(), Error> {
         match self {
             Ty::I64 { .. } => Ok(()),
-            Ty::Decl { name, .. } => match symbol_table.type_templates.get(name) {
-                Some(_) => Ok(()),
-                None => {
-                    if type_params.bindings.contains(name) {
-                        Ok(())
-                    } else {
-                        Err(Error::Undefined {
+            Ty::Decl {
+                name, type_args, ..
+            } => {
+                // a template must be applied to as many well-formed types as it has type parameters,
+                // a type parameter to none
+                let expected = match symbol_table.type_templates.get(name) {
+                    Some((_, template_params, _)) => template_params.bindings.len(),
+                    None if type_params.bindings.contains(name) => 0,
+                    None => {
+                        return Err(Error::Undefined {
                             span,
                             name: name.clone(),
-                        })
+                        });
                     }
+                };
+                if type_args.args.len() != expected {
+                    return Err(Error::WrongNumberOfTypeArguments {
+                        span: type_args.span.or(span),
+                        expected,
+                        got: type_args.args.len(),
+                    });
                 }
-            },
+                for type_arg in &type_args.args {
+                    type_arg.check_template(span, symbol_table, type_params)?;
+                }
+                Ok(())
+            }
         }
     }
 
